@@ -2,6 +2,7 @@ import Frp.Driver.Proto
 import Frp.Model.Udp
 import Frp.Model.Sudp
 import Frp.Model.UdpSrv
+import Frp.Model.SudpPx
 import Frp.Props.C03
 /-
   Driver engine "udp": replays the harness trace (harness/eng_udp.go) on the Base64 / Udp models
@@ -354,6 +355,193 @@ def parseSrvResult (k : Nat) (impl : String) : Option (List WEntry × List (List
         | _ => none
   | [] => none
 
+/-! ### client side of a sudp proxy with several work connections (harness/eng_udp_px.go) -/
+
+/-- payload of a request whose answer the backend holds back: first byte 'H' -/
+def holdPayload (u seq ln seed : Nat) : Str :=
+  match tunnelPayload u seq ln seed with
+  | _ :: rest => 72 :: rest
+  | [] => []
+
+inductive PTok
+  | opn                                        -- o
+  | dgram (c u ln seed : Nat) (hold : Bool)    -- d / D / q
+  | badc (c u : Nat)                           -- b
+  | release                                    -- a
+  | kill (c : Nat)                             -- x / y / z
+  | closeAll                                   -- C
+
+def nat4 (t : String) : Option (List Nat) := ((t.splitOn ".").mapM String.toNat?)
+
+/-- `withConn = false`: tokens of `e2ev` (user instead of connection.user; connection 0 is a placeholder) -/
+def parsePTok (withConn : Bool) (t : String) : Option PTok :=
+  if t = "o" then some .opn
+  else if t = "a" then some .release
+  else if t = "C" then some .closeAll
+  else match t.toList with
+    | c :: rest =>
+      let body := String.ofList rest
+      if c = 'x' ∨ c = 'y' ∨ c = 'z' then body.toNat?.map .kill
+      else match nat4 body, withConn with
+        | some [cn, u, l, sd], true =>
+          if c = 'd' ∨ c = 'D' then some (.dgram cn u l sd false)
+          else if c = 'q' then some (.dgram cn u l sd true)
+          else if c = 'b' then some (.badc cn u) else none
+        | some [u, l, sd], false =>
+          if c = 'd' ∨ c = 'D' then some (.dgram 0 u l sd false)
+          else if c = 'q' then some (.dgram 0 u l sd true) else none
+        | _, _ => none
+    | [] => none
+
+def parsePScript (withConn : Bool) (t : String) : Option (List PTok) :=
+  if t = "" then some [] else (t.splitOn ",").mapM (parsePTok withConn)
+
+structure PSim where
+  s : SudpPx.St
+  dead : List Nat := []                      -- connections the script has taken away
+  held : List (Nat × Nat × Str) := []        -- answers the backend holds: (connection, socket, payload)
+  E : List Entry := []                       -- datagrams the backend must get
+  rs : List (Nat × Entry) := []              -- answers that must be read back: (connection, payload)
+  vconn : List (Nat × Nat) := []             -- e2ev: visitor ↦ its work connection
+
+def pxAlive (st : PSim) (c : Nat) : Bool := decide (c < st.s.conns.length) && !st.dead.contains c
+
+/-- light load: the goroutines of the connection run to quiescence; the request goes to the backend -/
+def pxRequest (st : PSim) (c : Nat) (u : Nat) (p : Str) (hold : Bool) (cut : Nat) : PSim :=
+  let m := packetOf p none (some (userAddr u))
+  let s1 := SudpPx.step (SudpPx.step st.s (.at c (.recv m))) (.at c (.fwd true))
+  let k := match (s1.conn c).bind (fun cn => cn.backendLog.getLast?) with
+    | some e => e.1
+    | none => 0
+  let reply := tunnelReply p
+  let st := { st with s := s1, E := st.E ++ [entryOf p] }
+  if hold then { st with held := st.held ++ [(c, k, reply)] }
+  else
+    { st with s := SudpPx.step (SudpPx.step s1 (.at c (.backendReply k reply))) (.at c (.send true)),
+              rs := st.rs ++ [(c, entryOf (rd cut reply))] }
+
+def pxRelease (st : PSim) (cut : Nat) : PSim :=
+  st.held.foldl (fun st h =>
+    let c := h.1
+    let s' := SudpPx.step (SudpPx.step st.s (.at c (.backendReply h.2.1 h.2.2))) (.at c (.send true))
+    if pxAlive st c then { st with s := s', rs := st.rs ++ [(c, entryOf (rd cut h.2.2))] }
+    else { st with s := s' }) { st with held := [] }
+
+def simPTok (ps : Nat) (st : PSim) (i : Nat) : PTok → PSim
+  | .opn =>
+    let n := st.s.conns.length
+    let s1 := SudpPx.step st.s .open_
+    if st.s.pclosed then
+      { st with s := SudpPx.step (SudpPx.step s1 (.at n .hbClose)) (.at n .readerDie), dead := n :: st.dead }
+    else { st with s := s1 }
+  | .dgram c u ln seed hold =>
+    if !pxAlive st c then st else
+    pxRequest st c u (if hold then holdPayload u i ln seed else tunnelPayload u i ln seed) hold ps
+  | .badc c u =>
+    if !pxAlive st c then st else
+    let m : Packet := ⟨[33, 42], none, some (userAddr u)⟩
+    { st with s := SudpPx.step (SudpPx.step st.s (.at c (.recv m))) (.at c (.fwd true)) }
+  | .release => pxRelease st ps
+  | .kill c =>
+    if !pxAlive st c then st else
+    { st with s := SudpPx.step (SudpPx.step st.s (.at c .readerDie)) (.at c .senderEnd), dead := c :: st.dead }
+  | .closeAll =>
+    let s1 := SudpPx.step st.s .proxyClose
+    let live := (List.range s1.conns.length).filter (pxAlive st)
+    let s2 := live.foldl (fun s c => SudpPx.step (SudpPx.step (SudpPx.step s (.at c .hbClose)) (.at c .readerDie))
+      (.at c .senderEnd)) s1
+    { st with s := s2, dead := live ++ st.dead }
+
+def simPScript (ps : Nat) (toks : List PTok) : PSim :=
+  (toks.zipIdx).foldl (fun st p => simPTok ps st p.2 p.1) { s := SudpPx.init ps 1024 }
+
+def connB (c : SudpPx.Conn) : List Entry := c.backendLog.filterMap (fun e => e.2.2.map entryOf)
+def connR (c : SudpPx.Conn) : List Entry := c.wire.filterMap (fun e => e.2.map entryOf)
+
+def modelCpx (st : PSim) : String :=
+  let cs := st.s.conns
+  let b := fmtEntries (cs.flatMap connB)
+  let r := String.join ((List.range cs.length).zip cs |>.map (fun p => s!";R{p.1}={fmtEntries (connR p.2)}"))
+  let al := String.join (cs.map (fun c => if c.isClose then "0" else "1"))
+  s!"B={b}{r};alive={al};socks={(cs.map (·.nextSock)).sum};mixed=0;bad=0"
+
+/-- parse `B=…;R0=…;…;alive=bits;socks=n;mixed=m;bad=b` for `n` connections -/
+def parseCpxResult (n : Nat) (impl : String) : Option (List Entry × List (List Entry) × List Bool × Bool × Bool) :=
+  match impl.splitOn ";" with
+  | b :: rest =>
+    match (kv "B" b).bind parseEntries with
+    | none => none
+    | some B =>
+      let rsT := (List.range n).zip (rest.take n)
+      match rsT.mapM (fun p => (kv s!"R{p.1}" p.2).bind parseEntries) with
+      | none => none
+      | some Rs =>
+        if rsT.length ≠ n then none else
+        match rest.drop n with
+        | [al, _, m, bd] =>
+          match kv "alive" al, kv "mixed" m, kv "bad" bd with
+          | some al, some m, some bd => some (B, Rs, al.toList.map (· == '1'), m ≠ "0", bd ≠ "0")
+          | _, _, _ => none
+        | _ => none
+  | [] => none
+
+/-- e2ev: user `u` talks to visitor `u mod nv`; the first datagram of a visitor opens its work connection -/
+def simVisTok (ps nv : Nat) (st : PSim) (i : Nat) : PTok → PSim
+  | .dgram _ u ln seed hold =>
+    let v := u % nv
+    let (st, c) := match st.vconn.find? (fun e => e.1 = v) with
+      | some e => (st, e.2)
+      | none =>
+        let n := st.s.conns.length
+        ({ st with s := SudpPx.step st.s .open_, vconn := (v, n) :: st.vconn }, n)
+    -- the visitor's ForwardUserConn cuts the datagram to the packet size
+    pxRequest st c u (rd ps (if hold then holdPayload u i ln seed else tunnelPayload u i ln seed)) hold ps
+  | .release => pxRelease st ps
+  | _ => st
+
+def simVisScript (ps nv : Nat) (toks : List PTok) : PSim :=
+  (toks.zipIdx).foldl (fun st p => simVisTok ps nv st p.2 p.1) { s := SudpPx.init ps 1024 }
+
+def modelE2ev (k : Nat) (st : PSim) : String :=
+  let cs := st.s.conns
+  let all := cs.flatMap (·.wire)
+  let ustr := String.join ((List.range k).map (fun u =>
+    s!";U{u}={fmtEntries ((all.filter (fun e => e.1 = some (userAddr u))).filterMap (fun e => e.2.map entryOf))}"))
+  s!"B={fmtEntries (cs.flatMap connB)}{ustr};socks={(cs.map (·.nextSock)).sum};mixed=0"
+
+/-! ### batches of decoded payloads that are all kept -/
+
+def parseItems (t : String) : Option (List (Nat × Nat)) :=
+  if t = "" then some [] else
+  (t.splitOn ",").mapM (fun e =>
+    match (e.splitOn ".").map String.toNat? with
+    | [some l, some s] => some (l, s)
+    | _ => none)
+
+/-- what must be retained for item (len, seed) of worker j: length and hash of the payload, computed through
+    the model's encoder and decoder -/
+def batchItem (j : Nat) (it : Nat × Nat) : List Nat :=
+  match contentOf (packetOf (lcgBytes (it.2 + 7919 * j) it.1) none none) with
+  | some r => [r.length, vhash r]
+  | none => []
+
+def fmtBatchItem (e : List Nat) : String :=
+  match e with
+  | [l, h] => s!"{l}.{h}"
+  | _ => "err"
+
+def parseBatchItem (t : String) : Option (List Nat) :=
+  if t = "err" then some [] else
+  match (t.splitOn ".").map String.toNat? with
+  | [some l, some h] => some [l, h]
+  | _ => none
+
+def parseBatchResult (w : Nat) (impl : String) : Option (List (List (List Nat))) :=
+  let parts := impl.splitOn ";"
+  if parts.length ≠ w then none else
+  ((List.range w).zip parts).mapM (fun p =>
+    (kv s!"W{p.1}" p.2).bind (fun t => if t = "" then some [] else (t.splitOn ",").mapM parseBatchItem))
+
 end UdpEng
 open UdpEng
 
@@ -455,6 +643,49 @@ def udpStep (st : Unit) (tok : List String) (impl : String) : Unit × Verdict :=
         (st, verdictOf (modelSpx k sim W) impl (some (C03.holdsOnSrv sim.must sim.may (W.map Prod.snd) Rs Us bad)))
       | none => (st, verdictOf (modelSpx k sim []) impl (some false))
     | _, _, _ => (st, .bad "spx")
+  | ["cpx", pst, _, _, sc] =>
+    -- the real client-side sudp proxy with several scripted work connections; encryption / compression are transparent
+    match kv "ps" pst |>.bind String.toNat?, kv "s" sc |>.bind (parsePScript true) with
+    | some ps, some toks =>
+      if toks.any (fun t => match t with
+          | .dgram _ u ln _ _ => u ≥ 256 ∨ ln < 4
+          | _ => false) then (st, .bad "cpx token") else
+      let sim := simPScript ps toks
+      let n := sim.s.conns.length
+      let Rs := (List.range n).map (fun c => (sim.rs.filter (fun r => r.1 = c)).map Prod.snd)
+      let aliveExp := (List.range n).map (fun c => !sim.dead.contains c)
+      let prop := match parseCpxResult n impl with
+        | some (B, Us, alive, mixed, bad) => some (C03.holdsOnPx sim.E B Rs Us aliveExp alive mixed bad)
+        | none => some false
+      (st, verdictOf (modelCpx sim) impl prop)
+    | _, _ => (st, .bad "cpx")
+  | ["e2ev", pst, _, _, vt, kt, sc] =>
+    -- several real visitors -> real frps -> one real sudp proxy: one work connection per visitor
+    match kv "ps" pst |>.bind String.toNat?, kv "v" vt |>.bind String.toNat?, kv "k" kt |>.bind String.toNat?,
+          kv "s" sc |>.bind (parsePScript false) with
+    | some ps, some nv, some k, some toks =>
+      if nv = 0 ∨ toks.any (fun t => match t with
+          | .dgram _ u ln _ _ => u ≥ k ∨ ln < 4
+          | _ => false) then (st, .bad "e2ev token") else
+      let sim := simVisScript ps nv toks
+      let all := sim.rs.map Prod.snd
+      let Rs := (List.range k).map (fun u => all.filter (fun e => e.1 = u))
+      let prop := match parseTunnelResult k impl with
+        | some (B, Us, mixed) => some (C03.holdsOnTunnel sim.E B Rs Us mixed)
+        | none => some false
+      (st, verdictOf (modelE2ev k sim) impl prop)
+    | _, _, _, _ => (st, .bad "e2ev")
+  | ["batch", wt, pt] =>
+    match kv "w" wt |>.bind String.toNat?, kv "p" pt |>.bind parseItems with
+    | some w, some items =>
+      let expected := (List.range w).map (fun j => items.map (batchItem j))
+      let model := ";".intercalate ((List.range w).zip expected |>.map (fun p =>
+        s!"W{p.1}={",".intercalate (p.2.map fmtBatchItem)}"))
+      let prop := match parseBatchResult w impl with
+        | some got => some (C03.holdsOnBatch expected got)
+        | none => some false
+      (st, verdictOf model impl prop)
+    | _, _ => (st, .bad "batch")
   | _ => (st, .bad "op")
 
 def udp : Engine := { State := Unit, init := (), step := udpStep }
